@@ -169,6 +169,19 @@ static void upoly_case(void) {
   if (chance(8)) { lp_upolynomial_delete(B); B = lp_upolynomial_neg(A); }
   unsigned op = rnd(12);
   lp_upolynomial_t* R = 0;
+  /* lp_upolynomial_cmp: zero exactly for equal polynomials, antisymmetric (operands that share their leading terms included) */
+  if (chance(15)) {
+    lp_upolynomial_t* C = B;
+    if (chance(40)) { /* A plus lower-order terms, or A with its low terms cut off */
+      lp_upolynomial_t* low = hp_random_upoly(ri, lp_upolynomial_degree(A) > 0 ? lp_upolynomial_degree(A) - 1 : 0);
+      C = chance(50) ? lp_upolynomial_add(A, low) : lp_upolynomial_sub(A, low);
+      lp_upolynomial_delete(low);
+    }
+    sb_begin("up", "cmp"); sb_sp(); hp_ring_token(ri); sb_sp(); sb_upoly(A); sb_sp(); sb_upoly(C); sb_arrow();
+    int c1 = lp_upolynomial_cmp(A, C), c2 = lp_upolynomial_cmp(C, A);
+    sb_sp(); sb_long(sgn_of(c1)); sb_sp(); sb_long(sgn_of(c2)); sb_emit();
+    if (C != B) lp_upolynomial_delete(C);
+  }
   switch (op) {
   case 0: case 1: case 2: {
     const char* nm = op == 0 ? "add" : op == 1 ? "sub" : "mul";
